@@ -146,6 +146,7 @@ func init() {
 	Properties["C05"] = &PropertySpec{
 		Modules: bt,
 		Rules: []Rule{
+			Only(R58(), `^a/`),
 			R53(),
 			R50(),
 			R18(),
@@ -163,6 +164,7 @@ func init() {
 	Properties["C06"] = &PropertySpec{
 		Modules: bt,
 		Rules: []Rule{
+			Only(R58(), `^d/`),
 			R50(),
 			Only(R01(map[string]int{"table.rows": 7}), `/table\.rows/`, fns(writeRPCs...)),
 			Only(R04(), fns(writeRPCs...)),
@@ -212,6 +214,7 @@ func init() {
 	Properties["C09"] = &PropertySpec{
 		Modules: st,
 		Rules: []Rule{
+			Only(R58(), `^c/`),
 			R56(),
 			R49(),
 			Only(R48(), `filestore`),
@@ -238,6 +241,7 @@ func init() {
 	Properties["C11"] = &PropertySpec{
 		Modules: st,
 		Rules: []Rule{
+			Only(R58(), `^c/`),
 			R49(),
 			Only(R48(), `filestore`),
 			Only(R17(), `handleGcsListBucket`, `makeBucketListResults`),
@@ -253,6 +257,7 @@ func init() {
 	Properties["C12"] = &PropertySpec{
 		Modules: bt,
 		Rules: []Rule{
+			Only(R58(), `^a/`),
 			R40(),
 			R50(),
 			R19(Only19("cam")),
@@ -268,6 +273,7 @@ func init() {
 	Properties["C13"] = &PropertySpec{
 		Modules: bt,
 		Rules: []Rule{
+			Only(R58(), `^d/`),
 			Only(R02R03(), fns(rpcMutateRow, rpcMutateRows, rpcCAM, rpcRMW)),
 			Only(R28(), `^c/`),
 			R52(),
@@ -287,6 +293,7 @@ func init() {
 	Properties["C14"] = &PropertySpec{
 		Modules: bt,
 		Rules: []Rule{
+			Only(R58(), `^b/`),
 			Only(R55(), `^a/`, `^d/`),
 			Only(R44(), `server\.tables`),
 			Only(R43(), fns("(*server).DropRowRange")),
